@@ -1371,12 +1371,59 @@ func c1NilGuards(c *Ctx, rule string, jsonOnly bool) {
 				c.Check(okDef && len(attach) == 1 && attach[0] == "newJSONEncoder", rule, name, slot, call.Pos(), "NewReflectedEncoder is replaced by the default when nil in newJSONEncoder, the only place a config enters an encoder (%v)", attach)
 				continue
 			}
-			c.Check(nilGuarded(call, v), rule, name, slot, call.Pos(), "the optional %s function is called only where it was tested non-nil or substituted by a default (guards %v)", fld, AtomStrings(Guards(call)))
+			if !nilGuarded(call, v) && fn.Parent() != nil {
+			// inside a function literal: the test may sit where the literal is made or handed on. Decided by exploring
+			// the enclosing method (helpers and the literals handed to them inline): on every path that reaches the
+			// call the function value is known to be non-nil.
+			ok, why := c1NonNilOnPaths(fn, call)
+			c.Check(ok, rule, name, slot, call.Pos(), "the optional %s function is called only where it is known to be non-nil on every path of the enclosing method (tested, or substituted by a default) %s", fld, why)
+			continue
+		}
+		c.Check(nilGuarded(call, v), rule, name, slot, call.Pos(), "the optional %s function is called only where it was tested non-nil or substituted by a default (guards %v)", fld, AtomStrings(Guards(call)))
 		}
 	}
 	if n < 10 {
 		c.Bad(rule, "sub-encoder calls", "count", token.NoPos, "only %d calls through optional sub-encoder fields found", n)
 	}
+}
+
+// c1NonNilOnPaths: on every explored path of the method enclosing the function literal fn that reaches call, the called
+// function value is known to be non-nil.
+func c1NonNilOnPaths(fn *ssa.Function, call *ssa.Call) (bool, string) {
+	root := fn
+	for root.Parent() != nil {
+		root = root.Parent()
+	}
+	reached, unknown := 0, 0
+	_, trunc := ConcPaths(root, ConcCfg{
+		Prune: true, MaxStates: 300000, MaxDepth: 8,
+		Event: func(in ssa.Instruction, st *ConcState) string {
+			if in != ssa.Instruction(call) {
+				return ""
+			}
+			reached++
+			v := call.Call.Value
+			for k := 0; k < 16; k++ {
+				if n, known := st.IsNil(v); known {
+					if n {
+						unknown++
+					}
+					return ""
+				}
+				nx := st.Step(v)
+				if nx == nil {
+					break
+				}
+				v = nx
+			}
+			unknown++
+			return ""
+		},
+	})
+	if trunc {
+		return false, "(path exploration incomplete)"
+	}
+	return reached > 0 && unknown == 0, "(" + itoa(reached) + " arrivals, " + itoa(unknown) + " without the fact)"
 }
 
 // optionalField: is v (possibly via local/phi) a load of an optional EncoderConfig function field?
@@ -1399,6 +1446,37 @@ func optionalField(v ssa.Value) (string, bool) {
 			if a, ok := y.X.(*ssa.Alloc); ok {
 				if s := singleStore(a); s != nil {
 					return rec(s)
+				}
+			}
+			if fv, ok := y.X.(*ssa.FreeVar); ok && fv.Parent() != nil && fv.Parent().Parent() != nil {
+				// a variable of the enclosing function captured by this literal: whatever is stored into it there
+				idx := -1
+				for i, f := range fv.Parent().FreeVars {
+					if f == fv {
+						idx = i
+					}
+				}
+				var res string
+				found := false
+				AllInstrs(fv.Parent().Parent(), func(in ssa.Instruction) {
+					mk, isMk := in.(*ssa.MakeClosure)
+					if !isMk || mk.Fn != ssa.Value(fv.Parent()) || idx < 0 || idx >= len(mk.Bindings) {
+						return
+					}
+					a, isA := mk.Bindings[idx].(*ssa.Alloc)
+					if !isA || a.Referrers() == nil {
+						return
+					}
+					for _, r := range *a.Referrers() {
+						if st, isSt := r.(*ssa.Store); isSt && st.Addr == ssa.Value(a) {
+							if f, ok := rec(st.Val); ok {
+								res, found = f, true
+							}
+						}
+					}
+				})
+				if found {
+					return res, true
 				}
 			}
 		case *ssa.Phi:
@@ -1470,6 +1548,20 @@ func c1Fallback(c *Ctx, rule string) {
 					}
 					if writes[sc] && !writes[fn] {
 						writes[fn], changed = true, true
+					}
+				}
+				// a function literal that calls a sub-encoder: so does the function that makes it, and the helper it is
+				// handed to runs it
+				for _, a := range cl.Common().Args {
+					if mk, isMk := a.(*ssa.MakeClosure); isMk {
+						if lf, isF := mk.Fn.(*ssa.Function); isF && hasOptional[lf] {
+							if !hasOptional[fn] {
+								hasOptional[fn], changed = true, true
+							}
+							if sc := StaticCallee(cl); sc != nil && !hasOptional[sc] && Eligible(sc) {
+								hasOptional[sc], changed = true, true
+							}
+						}
 					}
 				}
 			}
